@@ -30,23 +30,27 @@ func (check) Cases(tier string) int {
 }
 
 func (check) Rule() string {
-	return "a forest of up to 3 live configs: the first is built from a generated tree (every node a dictionary or a list, no references; root a dictionary, in 1 of 5 cases a list), further ones come into being as merge operands that stay in use (a *Config, a wrapper whose child is merged) or as clones (NewFrom of a live root or child handle). History of 3-20 shape-aware operations, each issued on the root of one tree or on a handle obtained with Child for a randomly chosen container of it (addresses relative to that receiver, spelled with a per-case path separator from a pool): writes of primitives and fresh sub-configs at existing/new keys and list positions (a container without named settings and without elements is written by name or by index, so emptied dictionaries become lists and emptied lists dictionaries), removals (biased to the middle of lists and to the last setting of a container), merges under default/append/prepend/replace/arr-replace of either a shape-compatible mutation of the receiver's subtree (Go data, parentless *Config, child handle of another config) or a LIVE node (root or child of another tree, or a node of the same tree beside the receiver), re-attachment of an already parented child anywhere in any tree (SetChild of a handle obtained with Child: a copy), clones. After EVERY step and for EVERY live tree (so also for the source of a merge/copy and for original and copy after later writes): (1) hook walk: every stored field name equals the key/index actually leading to the node and every stored parent is the config actually holding it; (2) API walk: Child(...).Path(sep) and PathOf(field, sep) equal the address sequence and Parent() is the config it was reached from, FlattenedKeys of sampled child handles lists the root-relative paths below them; (3) FlattenedKeys equals the model's set of non-nil primitive leaf paths; (4) CompareConfigs(previous state, current) equals the (kept, added, removed) partition of the two model key sets and a config compared with an equal copy reports no change. Every observer call draws its own option list: no option at all (paths spelled with \".\") or PathSep with a separator from the pool (paths spelled with it). Non-trivial = history with >= 2 successful structural mutations; distinct = distinct (initial tree, history)."
+	return "a forest of up to 3 live configs: the first is built from a generated tree (every node a dictionary or a list, no references; root a dictionary, in 1 of 5 cases a list; in 1 of 8 cases below a spine of 5-259 further levels of dictionaries and lists, depths drawn around the powers of two), further ones come into being as merge operands that stay in use (a *Config, a wrapper whose child is merged) or as clones (NewFrom of a live root or child handle). Names come from a small pool that in 1 of 6 cases also holds the empty name and in 1 of 6 cases a name containing a separator of the pool other than the one the case splits names at. Go data (initial tree, merge operands, fresh children) is rendered as nested maps, interface-keyed maps or run-time built structs, in 1 of 3 renderings with dotted names: settings of nested dictionaries moved up under a name joined with the separator ({\"a.b\": X, a: {c: Y}}), X a primitive, an object or a list. History of 3-20 shape-aware operations, each issued on the root of one tree or on a handle obtained with Child for a randomly chosen container of it (addresses relative to that receiver, spelled with a per-case path separator from a pool): writes of primitives and fresh sub-configs at existing/new keys and list positions, also several (up to 80) levels below anything that exists (a container without named settings and without elements is written by name or by index, so emptied dictionaries become lists and emptied lists dictionaries), removals (biased to the middle of lists and to the last setting of a container), merges under default/append/prepend/replace/arr-replace of either a shape-compatible mutation of the receiver's subtree or a LIVE node (root or child of another tree, or a node of the same tree beside the receiver), re-attachment of an already parented child anywhere in any tree, also below itself (SetChild of a handle obtained with Child: a copy), SetChild of the root of the tree written to (must be refused or attach a copy), clones. After EVERY step and for EVERY live tree: (1) hook walk: every stored field name equals the key/index actually leading to the node and every stored parent is the config actually holding it; (2) API walk: Child(...).Path(sep) and PathOf(field, sep) equal the address sequence and Parent() is the config it was reached from, FlattenedKeys of sampled child handles lists the root-relative paths below them; (3) FlattenedKeys equals the model's list of non-nil primitive leaf paths, each the names joined with the separator; (4) CompareConfigs equals the (kept, added, removed) partition of the two sets of path strings for (tree, equal copy: no change), (state before the step, tree) and (another live tree or an empty config, tree), in either order. Every observer call draws its own option list: no option at all (paths spelled with \".\") or PathSep with a separator from the pool (paths spelled with it). Non-trivial = history with >= 2 successful structural mutations; distinct = distinct (initial tree, history)."
 }
 
 func (check) Assumptions() []string {
 	return []string{
 		"tree-store and merge models as in C12/C01 predict the structure after each step",
 		"FlattenedKeys lists non-nil primitive leaves only (empty containers and nils are not settings), as the statement says",
-		"Path/PathOf/FlattenedKeys/CompareConfigs spell paths with the separator they are given (\".\" when FlattenedKeys/CompareConfigs get no option), whatever separator the config was built or written with; key names never contain a separator of the pool",
+		"Path/PathOf/FlattenedKeys/CompareConfigs spell a path as its names and indices joined with the separator they are given (\".\" when FlattenedKeys/CompareConfigs get no option), whatever separator the config was built or written with. The statement demands no escaping: a name containing the separator makes two different paths one string (audit item 3) - then FlattenedKeys lists that string once per setting and CompareConfigs partitions the strings; names never contain \".\" (the hook spells walk paths with it)",
+		"the empty string is a name like any other: a setting named \"\" below a has the path \"a.\" (audit item 1); the API cannot address the one-name path \"\", such nodes are reached through longer addresses or observed through FlattenedKeys only",
 		"FlattenedKeys called on a child handle lists the settings below that child with root-relative paths (the statement says root-relative)",
 		"Merge/NewFrom with a live *Config as source and SetChild of an already parented child copy: source and destination are independent configs afterwards, each describing its own structure",
+		"SetChild of the root of the tree written to (the receiver itself or an ancestor) either fails and changes nothing or attaches a copy; a config that contains itself has no paths (audit item 4)",
 		"a node with zero named settings that holds elements is a list (and one with named settings and no elements a dictionary) whatever it held earlier; merges never let named settings meet elements in one node",
 		"a live node is merged only into a receiver outside its own subtree and not above it",
+		"not generated: handles kept across the removal/replacement of their node (nodes no longer reachable in a config, audit item 6); Unpack and by-value copies of Config (Unpack is none of the merges, writes and removals of the statement, audit item 5)",
+		"the verif hook walks 64 levels; stored names and parents further down are observed through Path/Parent/FlattenedKeys only",
 	}
 }
 
-// sepPool: separators for addressed operations and for the observers. Key
-// names (gen.Keys, "r", "w", decimal indices) contain none of them.
+// sepPool: separators for addressed operations and for the observers. No name
+// contains the separator its case addresses with, and none contains ".".
 var sepPool = []string{".", "/", ":", "::", "|", "->"}
 
 var treeOpts = gen.TreeOpts{NoEmpty: false, Prims: []interface{}{"s", "t", int64(-3), uint64(7), true, 2.5, ""}}
@@ -251,8 +255,31 @@ type state struct {
 	keys   []string     // names of the case
 	topts  gen.TreeOpts // tree generator options with those names
 	fsep   string       // separator contained in one name of the case ("" = none)
+	// FlattenedKeys calls on child handles left for the API walk in progress
+	handleKeysLeft int
 	// containers that lost their last named setting / last element by a removal
 	emptiedDict, emptiedList map[*model.Node]bool
+}
+
+// maxDepth bounds what a step may build: every look at a tree costs
+// (settings) x (depth)^2 in the library's path builder.
+const maxDepth = 280
+
+func height(n *model.Node) int {
+	h := 0
+	if n.IsSub() {
+		for _, v := range n.D {
+			if x := 1 + height(v); x > h {
+				h = x
+			}
+		}
+		for _, v := range n.A {
+			if x := 1 + height(v); x > h {
+				h = x
+			}
+		}
+	}
+	return h
 }
 
 func blank(n *model.Node) bool { return n.IsSub() && len(n.D) == 0 && len(n.A) == 0 }
@@ -349,7 +376,7 @@ func drawDepth(r *rand.Rand) int {
 	if r.Intn(3) == 0 {
 		return 5 + r.Intn(36)
 	}
-	return (16 << uint(r.Intn(5))) - 1 + r.Intn(5)
+	return (16 << uint([]int{0, 0, 1, 1, 1, 2, 2, 3, 4}[r.Intn(9)])) - 1 + r.Intn(5)
 }
 
 // spine puts inner below d levels of dictionaries and lists (some with
@@ -505,8 +532,10 @@ func (check) Run(seed int64, tier string, idx int, verbose bool) harness.Result 
 	} else {
 		m = gen.TopDict(r, s.topts, 3)
 	}
+	deep := 0
 	if r.Intn(8) == 0 {
 		d := drawDepth(r)
+		deep = d
 		m = s.spine(d, m)
 		res.Ev("cases_with_deep_initial_tree", 1)
 		res.SetAdd("initial_spine_depth", strconv.Itoa(d))
@@ -523,6 +552,9 @@ func (check) Run(seed int64, tier string, idx int, verbose bool) harness.Result 
 		s.log = append(s.log, fmt.Sprintf("sep=%q T0=NewFrom[%s](%s)", s.sep, how, m))
 		s.verify(-1, nil)
 		n := 3 + r.Intn(18)
+		if deep > 70 {
+			n = 3 + r.Intn(5) // every look at such a tree costs (settings) x (depth)^2
+		}
 		for i := 0; i < n && !s.failed; i++ {
 			if s.step() {
 				break
@@ -663,6 +695,9 @@ func (s *state) step() bool {
 			if k > 32 {
 				s.res.Ev("writes_creating_more_than_32_levels", 1)
 			}
+		}
+		if len(rq)+len(full) > maxDepth {
+			return false
 		}
 		name, idx := s.address(full)
 		var val *model.Node
@@ -878,6 +913,9 @@ func (s *state) step() bool {
 				}
 			}
 		}
+		if len(rq)+height(b) > maxDepth {
+			return false
+		}
 		moving := isList(rm) && len(rm.A) > 0 && len(b.A) > 0 && pol.p == model.PPrepend
 		if blank(rm) && len(b.A) > 0 && s.emptiedDict[rm] {
 			s.res.Ev("emptied_dictionary_then_list_merged_in", 1)
@@ -972,6 +1010,9 @@ func (s *state) step() bool {
 		full := cat(dst.q, []string{seg})
 		name, idx := s.address(full)
 		sub := at(s.trees[src.t].m, src.q).Copy()
+		if len(full)+height(sub) > maxDepth {
+			return false
+		}
 		if dt == src.t && strings.HasPrefix(join(dst.q)+".", join(src.q)+".") {
 			s.res.Ev("reattachments_below_the_reattached_node_itself", 1)
 		}
@@ -1091,7 +1132,14 @@ func (s *state) verify(changed int, prev *model.Node) {
 			}
 			lastSeg := n.Walk[strings.LastIndex(n.Walk, ".")+1:]
 			if n.Field != lastSeg {
-				s.fail(narrow(t, n, "stored-field-name-wrong"), "T%d: node reached at %q stores field name %q", t, n.Walk, n.Field)
+				sig := narrow(t, n, "stored-field-name-wrong")
+				// the name as it was spelled in the input, separators and all?
+				for segs, k := strings.Split(n.Walk, "."), 2; k <= len(segs); k++ {
+					if strings.Join(segs[len(segs)-k:], s.sep) == n.Field {
+						sig = "stored-field-name-is-the-unsplit-input-name"
+					}
+				}
+				s.fail(sig, "T%d: node reached at %q stores field name %q", t, n.Walk, n.Field)
 				return
 			}
 			if n.Parent != n.Holder {
@@ -1169,14 +1217,16 @@ func (s *state) keysSig(t int, got, want []string, sep, generic string) string {
 	if extra && extraNull && len(missing) == 0 {
 		return "flattenedkeys-lists-null-setting"
 	}
-	if extra && len(missing) > 0 {
+	if len(missing) > 0 {
 		// every missing path turns up without its leading names?
 		cls, shortest := "", 0
 		for _, k := range missing {
 			E, c := strings.Split(k, "."), ""
 			for _, g := range got {
-				if c = cutClass(E, g, sep); c != "" {
-					break
+				if x := cutClass(E, g, sep); x != "" {
+					if c = x; c == "cut-at-empty-name" {
+						break
+					}
 				}
 			}
 			empty := c == "cut-at-empty-name"
@@ -1224,6 +1274,10 @@ func (s *state) verifyTree(t int, prev *model.Node) {
 	tr := s.trees[t]
 	// (2) API walk
 	_, wsep := s.observer()
+	s.handleKeysLeft = 8
+	if height(tr.m) > 64 {
+		s.handleKeysLeft = 2
+	}
 	s.apiWalk(t, tr.c, tr.m, nil, wsep)
 	if s.failed {
 		return
@@ -1358,7 +1412,8 @@ func (s *state) apiWalk(t int, c *ucfg.Config, n *model.Node, q []string, sep st
 		return
 	}
 	s.res.Eval(1)
-	if c != nil && len(q) > 0 && s.r.Intn(4) == 0 {
+	if c != nil && len(q) > 0 && s.r.Intn(4) == 0 && s.handleKeysLeft > 0 {
+		s.handleKeysLeft-- // each call costs (settings below) x (depth)^2
 		// FlattenedKeys of a child handle: the settings below it, root-relative
 		var want []string
 		leafPaths(n, q, &want)
@@ -1485,7 +1540,7 @@ func cutClass(E []string, got, sep string) string {
 			return "cut-at-empty-name"
 		}
 	}
-	for k := 1; k <= len(E); k++ {
+	for k := 1; k < len(E); k++ {
 		if got != strings.Join(E[k:], sep) {
 			continue
 		}
